@@ -16,3 +16,5 @@ func C_a_Boxed_0() bool { r := a.Boxed(nil); return r == nil }
 func C_a_BoxedNew_0() bool { r := a.BoxedNew(nil); return r == nil }
 func C_a_First_0() bool { r := a.First([]error{nil}); return r == nil }
 func C_a_Describe_0() bool { r := a.Describe(nil, false); return r == nil }
+func C_a_MultiTyped_0() bool { r := a.MultiTyped(); return r == nil }
+func C_a_ConvTIface_0() bool { r := a.ConvTIface(0); return r == nil }
